@@ -272,7 +272,7 @@ def session_pairs(chk, tier):
         X = pbx.gen_bounds(rng, 200, kx, dy=False)
         span = max(X[1][-1] - X[0][0], 1e-3)
         X2 = ([v - span / 3 for v in X[0]], [v + span / 3 for v in X[1]])                  # X strictly inside X2
-        B = ([v + span / 6 for v in X2[0]], [v + span for v in X2[1]])                     # overlaps X2, cuts into X from the left
+        B = ([v + span / 2 for v in X2[0]], [v + span for v in X2[1]])                     # overlaps X2, its left bound lies ABOVE that of X: the meet with X2 no longer contains X
         Y = pbx.gen_bounds(rng, 200, "pos", dy=False)
         x, xw, b, y = S(X), S(X2), S(B), S(Y)
         c = rng.choice([-2.5, 2.0, 0.5])
